@@ -13,7 +13,7 @@ import (
 
 var (
 	c15Schemes = []string{"http", "https"}
-	c15Hosts   = []string{"e.com", "E.com", "e.com:8080", "e.com:443", "e.com:80", "[2001:db8::1]", "[2001:db8::1]:8443"}
+	c15Hosts   = []string{"e.com", "E.com", "e.com:8080", "e.com:443", "e.com:80", "[2001:db8::1]", "[2001:db8::1]:8443", "inbox", "followers", "shares:8080", "likes.example"}
 	c15Paths   = []string{"", "/", "/a", "/a/", "/a/b", "/a/inbox", "/outbox/b", "/a%20b", "/a%2Fb", "/~u", "/a/Likes", "/users/someone/notes/1"}
 )
 
@@ -196,7 +196,7 @@ func c15Run(c *engine.Ctx) {
 		ap.Likes: "Likes", ap.Shares: "Shares", ap.Replies: "Replies"}
 	for _, f := range forms {
 		for _, name := range names {
-			for _, state := range []string{"unset", "explicit-iri", "explicit-collection", "explicit-page-with-partOf", "explicit-ordered-page-with-partOf", "explicit-collection-with-first"} {
+			for _, state := range []string{"unset", "unset+neighbours", "explicit-iri", "explicit-iri+neighbours", "explicit-collection", "explicit-page-with-partOf", "explicit-ordered-page-with-partOf", "explicit-collection-with-first"} {
 				for _, id := range ids {
 					f, name, state, id := f, name, state, id
 					owns := f.actor || ap.OfObject.Contains(name)
@@ -206,6 +206,10 @@ func c15Run(c *engine.Ctx) {
 					class := fmt.Sprintf("C15|holder|%s|%s|%s", f.name, name, state)
 					c.Do(class, func() string { return fmt.Sprintf("%s id=%s with %s %s", f.name, id, name, state) }, func(t *engine.T) {
 						t.Distinct(state != "unset")
+						// "+neighbours": every OTHER collection property, the endpoints (shared inbox ...), streams, url and context of the
+						// holder are set - the collection under test is the holder's own property or the built IRI, never a neighbour's
+						neighbours := strings.HasSuffix(state, "+neighbours")
+						state := strings.TrimSuffix(state, "+neighbours")
 						var explicit ap.Item
 						switch state {
 						case "explicit-iri":
@@ -244,6 +248,19 @@ func c15Run(c *engine.Ctx) {
 								case "Replies":
 									a.Replies = explicit
 								}
+								if neighbours {
+									nb := func(n string) ap.Item { return ap.IRI("https://neighbour.example/" + n) }
+									for fname, set := range map[string]func(ap.Item){"Inbox": func(i ap.Item) { a.Inbox = i }, "Outbox": func(i ap.Item) { a.Outbox = i }, "Following": func(i ap.Item) { a.Following = i },
+										"Followers": func(i ap.Item) { a.Followers = i }, "Liked": func(i ap.Item) { a.Liked = i }, "Likes": func(i ap.Item) { a.Likes = i }, "Shares": func(i ap.Item) { a.Shares = i },
+										"Replies": func(i ap.Item) { a.Replies = i }} {
+										if fname != fieldOf[name] {
+											set(nb(strings.ToLower(fname)))
+										}
+									}
+									a.Endpoints = &ap.Endpoints{SharedInbox: nb("shared-inbox"), OauthAuthorizationEndpoint: nb("oauth"), UploadMedia: nb("upload")}
+									a.Streams = ap.ItemCollection{nb("stream")}
+									a.URL, a.Context, a.Generator = nb("url"), nb("context"), nb("generator")
+								}
 								if f.ptr {
 									return a
 								}
@@ -257,6 +274,19 @@ func c15Run(c *engine.Ctx) {
 								o.Shares = explicit
 							case "Replies":
 								o.Replies = explicit
+							}
+							if neighbours {
+								nb := func(n string) ap.Item { return ap.IRI("https://neighbour.example/" + n) }
+								if fieldOf[name] != "Likes" {
+									o.Likes = nb("likes")
+								}
+								if fieldOf[name] != "Shares" {
+									o.Shares = nb("shares")
+								}
+								if fieldOf[name] != "Replies" {
+									o.Replies = nb("replies")
+								}
+								o.URL, o.Context, o.AttributedTo = nb("url"), nb("context"), nb("attributed-to")
 							}
 							if f.ptr {
 								return o
